@@ -389,6 +389,31 @@ func runC12(c *rt.Ctx) {
 			}
 		}
 	}
+	// a value beyond memcached's default item limit, then another command on the same connection,
+	// next to a second connection on the same stripe: whatever is done about the size, the stripe
+	// is free afterwards and everybody is answered
+	for _, cfg := range []Cfg{{Orca: "l1l2b", Lock: "multi", Proto: "binary", L1H: "std", Conc: 0}, {Orca: "l1only", Lock: "single", Proto: "text", L1H: "std", Conc: 0}} {
+		for _, kind := range []string{"set", "append"} {
+			item++
+			if !c.Mine(item) || c.Expired() {
+				continue
+			}
+			bv := wire.GenValue(1048577, 9)
+			for i := range bv {
+				bv[i] = 'a' + bv[i]%26 // (printable: scenarios travel as JSON)
+			}
+			big := wire.Op{Kind: kind, Key: "a", Val: string(bv), Flags: 5}
+			sc := ConcScenario{Harness: "C12", Cfg: cfg, Init: initStates("a")[2].Ops, Threads: []ConcThread{
+				{Port: 0, Ops: []wire.Op{big, {Kind: "get", Key: "a"}}}, {Port: 0, Ops: []wire.Op{{Kind: "set", Key: "b", Val: "vb"}, {Kind: "get", Key: "a"}}}}}
+			_, outs, complete := ExploreConc(c, sc, 1, 20000)
+			if !complete {
+				c.Cap("schedule cap for the big-value program")
+			}
+			c.State(int64(len(outs)))
+			c.Distinct("bigvalue|" + cfg.String() + "|" + kind)
+			c.Nontrivial("bigvalue|" + cfg.String() + "|" + kind)
+		}
+	}
 	// concurrent multi-key gets over overlapping keys in opposite orders, with a writer
 	for _, lock := range []string{"single", "multi"} {
 		for _, conc := range []uint8{0, 1} {
